@@ -183,8 +183,9 @@ fn textbook(q: &[f64], p: &[f64]) -> Textbook {
         h: -q.iter().map(|&x| xlogy(x, x)).sum::<f64>(),
         ce: -p.iter().zip(q).map(|(&p, &q)| xlogy(p, q)).sum::<f64>(),
         rce: -q.iter().zip(p).map(|(&q, &p)| q * p.log2()).sum::<f64>(),
-        kl: p.iter().zip(q).map(|(&p, &q)| if p == 0.0 { 0.0 } else { p * (p / q).log2() }).sum::<f64>(),
-        rkl: q.iter().zip(p).map(|(&q, &p)| q * (q / p).log2()).sum::<f64>(),
+        // (log of the ratio written as a difference of logs: the ratio itself overflows for entries like 5e-324)
+        kl: p.iter().zip(q).map(|(&p, &q)| if p == 0.0 { 0.0 } else { p * (p.log2() - q.log2()) }).sum::<f64>(),
+        rkl: q.iter().zip(p).map(|(&q, &p)| q * (q.log2() - p.log2())).sum::<f64>(),
     }
 }
 
@@ -202,6 +203,15 @@ fn ref_dists(q: &[f64]) -> Vec<(&'static str, Vec<f64>)> {
     z[k - 1] = 0.25;
     z[0] = 0.75;
     v.push(("two-point with interior zeros", z));
+    // entries many orders of magnitude below the fixed-point resolution (but not zero): the definitions are still
+    // finite there (p log p -> 0), a formula that divides by p or multiplies unnormalised weights need not be
+    for tiny in [1e-305f64, 5e-324, 1e-40] {
+        let mut t = vec![0.0; k];
+        t[0] = tiny;
+        t[k - 1] = 1.0 - tiny;
+        if k >= 3 { t[1] = tiny; }
+        v.push(("tiny non-zero entries", t));
+    }
     v
 }
 
@@ -331,7 +341,7 @@ fn diagnostics(report: &Report, tier: Tier) {
     report.add_traces(n);
     report.add_transitions(n);
     report.section(json!({"part": "diagnostics vs textbook", "models": "all 127 models at P=3 (contiguous + non-contiguous enc/dec), P=4 models, full-precision, u32/24, uniform, quantised Gaussians",
-        "reference_distributions": ["uniform", "the model itself", "one-hot", "skewed", "two-point with zeros"], "values_compared": n}));
+        "reference_distributions": ["uniform", "the model itself", "one-hot", "skewed", "two-point with zeros", "tiny non-zero entries (1e-305, 5e-324, 1e-40)"], "values_compared": n}));
 }
 
 /// raw-binary loads: for every word string, `from_binary(data)` reports exactly W * len valid bits, is not
